@@ -279,8 +279,9 @@ pub fn exec_main(args: &[String]) -> i32 {
         let env: EnvT = serde_json::from_value(v["env"].clone()).expect("env");
         let req: ReqT = serde_json::from_value(v["req"].clone()).expect("req");
         let chained = v.get("chained").and_then(|b| b.as_bool()).unwrap_or(false);
+        let reset = v.get("reset").and_then(|b| b.as_bool()).unwrap_or(false);
         w.set_env(&env);
-        if !(chained && i > 0) {
+        if !chained || reset || i == 0 {
             let pre: StateT = serde_json::from_value(v["pre"].clone()).expect("pre");
             w.inject(&pre);
         }
